@@ -447,18 +447,14 @@ Proof.
   induction ops as [|o l IH]; intros r H; cbn [noin_m]; [reflexivity|].
   unfold noin_s in *. cbn [existsb] in H. apply negb_true_iff in H. apply orb_false_iff in H as [H1 H2].
   assert (Hl : negb (existsb (Z.eqb 2) l) = true) by (now rewrite H2).
-  rewrite Z.eqb_sym in H1. rewrite H1.
-  destruct (o =? 1); [auto|]. destruct (o =? 0); auto.
+  rewrite Z.eqb_sym in H1. rewrite H1. auto.
 Qed.
 
-(* otto decides the rule exactly as long as no relational operator precedes *)
-Lemma noin_agree_norel : forall ops, existsb (Z.eqb 1) ops = false -> noin_m false ops = noin_s ops.
+(* otto decides the rule exactly *)
+Lemma noin_agree : forall ops, noin_m false ops = noin_s ops.
 Proof.
-  induction ops as [|o l IH]; intros H; [reflexivity|].
-  cbn [existsb] in H. apply orb_false_iff in H as [H1 H2]. rewrite Z.eqb_sym in H1.
-  unfold noin_s in *. cbn [noin_m existsb]. rewrite H1.
-  destruct (Z.eqb_spec o 2) as [->|N].
-  - reflexivity.
-  - assert (E : (2 =? o) = false) by (apply Z.eqb_neq; auto). rewrite E. cbn [orb].
-    destruct (o =? 0); auto.
+  induction ops as [|o l IH]; [reflexivity|].
+  unfold noin_s in *. cbn [noin_m existsb].
+  destruct (Z.eqb_spec o 2) as [->|N]; [reflexivity|].
+  assert (E : (2 =? o) = false) by (apply Z.eqb_neq; auto). rewrite E. cbn [orb]. exact IH.
 Qed.
